@@ -18,6 +18,15 @@ ASSUMPTIONS = ["Rust semantics of Vec/usize as modelled (checked indexing, debug
 UNPROVED = ["norms over f64 (norm_1/inf/p/max) are tied by the float tier and the oracle, not by a theorem over R",
             "operand non-mutation / owned=borrowed are run-time observations of the executor (a value model satisfies them vacuously)"]
 
+MANIFEST = dict(
+    text=("Theorems (all shapes, all entry values, all histories) about the flat row-major Gallina model of src/matrix: each operation "
+          "equals its textbook definition and a history refines the list-of-rows spec; the model is run against the implementation on "
+          "every shape 0..5 (0..8 thorough) of the product, every operation x every index on small shapes and random histories "
+          "(Rat vs Qc exact, f64/Complex bit-compared), and a list-of-rows reference searches for a failing input."),
+    note="f64 norms are tied and searched, not proved over R; operand non-mutation is observed at run time.",
+    technique="Coq proof over an abstract ring + model/implementation differential execution (vm_compute vs Rust executor)",
+    design="7 (C03)")
+
 def val(rng, elt):
     if elt == 'rat':
         k = rng.below(8)
